@@ -61,6 +61,15 @@ pub fn oracle(c: &Case) -> Vec<Violation> {
                 }
                 let what = if a == b { "diagonal" } else { "off-diagonal" };
                 let r = catch_unwind(AssertUnwindSafe(|| t.set_distance(*a as usize, *b as usize, *val)));
+                if *a >= *n || *b >= *n {
+                    // a domain outside the matrix: the contract does not say whether it is refused.
+                    // Refused => no cell may change and the checksum stays valid; accepted => undefined.
+                    if r.is_ok() {
+                        break;
+                    }
+                    check(&t, &model, k + 1, "refused-out-of-range", &mut out);
+                    continue;
+                }
                 if r.is_err() {
                     out.push(v("SLIT", "refused-valid", format!("in-range pair {}", what), format!("N={} step={} pair=({},{})", n_, k + 1, a, b)));
                     break;
@@ -96,6 +105,14 @@ pub fn oracle(c: &Case) -> Vec<Violation> {
                     break;
                 }
                 let r = catch_unwind(AssertUnwindSafe(|| s.set_entry_value(*i as usize, *j as usize, *val)));
+                if *i >= *ni || *j >= *nt {
+                    // outside the matrix: refused => no trace; accepted => undefined, stop judging
+                    if r.is_ok() {
+                        return out;
+                    }
+                    check(&s, &model, k + 1, &mut out);
+                    continue;
+                }
                 if r.is_err() {
                     out.push(v("HMAT/SLLBI", "refused-valid", format!("in-range pair shape:{}", sc), format!("shape={}x{} step={} pair=({},{})", i_, t_, k + 1, i, j)));
                     break;
@@ -150,6 +167,11 @@ pub fn decode(s: &mut Choices) -> Case {
             } else {
                 (a, b)
             };
+            let (a, b) = match s.below(40) {
+                0 => (n + s.below(3), b),
+                1 => (a, n + s.below(3)),
+                _ => (a, b),
+            };
             ops.push((a, b, s.u8()));
         }
         Case::Slit(n, ops)
@@ -171,6 +193,11 @@ pub fn decode(s: &mut Choices) -> Case {
                     1 => (s.below(ni), nt - 1),
                     _ => (s.below(ni), s.below(nt)),
                 }
+            };
+            let (i, j) = match s.below(40) {
+                0 => (ni + s.below(3), j),
+                1 => (i, nt + s.below(3)),
+                _ => (i, j),
             };
             ops.push((i, j, s.u16()));
         }
@@ -234,6 +261,25 @@ pub fn run(ctx: &Ctx) {
         for s in sequences(&alpha, maxlen) {
             if !s.is_empty() {
                 cases.push(Case::Slit(n, s));
+            }
+        }
+    }
+    for n in 1..=6u32 {
+        // an assignment to a domain outside the matrix between two ordinary ones
+        for a in 0..2 * n + 2 {
+            for b in 0..2 * n + 2 {
+                if a >= n || b >= n {
+                    cases.push(Case::Slit(n, vec![(0, n - 1, 0x21), (a, b, 77), (n - 1, 0, 0x33)]));
+                }
+            }
+        }
+    }
+    for (i, t) in [(1u32, 1u32), (1, 3), (3, 1), (2, 3), (3, 2), (4, 4)] {
+        for a in 0..i + 2 {
+            for b in 0..t * i + 2 {
+                if a >= i || b >= t {
+                    cases.push(Case::Sllbi(i, t, vec![(0, t - 1, 0x21), (a, b, 77), (i - 1, 0, 0x33)]));
+                }
             }
         }
     }
